@@ -68,6 +68,7 @@ def check(F, R, Gm):
         f3, n3 = PP.run(R, "PRINT-PARSE", "Exp", triples, render, reader, where, skip_if_pair_fails=failing)
         R.notes.append("PRINT-PARSE Exp: %d pairs, %d grandchild chains whose pairs all pass; failing pairs %s; failing chains %s" % (n1, n3, sorted(failing), sorted(f3)))
     sign_split(F, R)
+    tolerant_in_printer(F, R)
     num_spell(F, R)
     g_names(F, R, Gm)
 
@@ -123,6 +124,40 @@ def sign_split(F, R, prop_filter=None, rule="SIGN-SPLIT"):
             R.ob(rule, key, inside, F.loc(f, a),
                  "sign of `%s` is chosen with the tolerant %s(.., 0.0) but `%s.abs()` is rendered also when that test is false: a value in (-1e-6, 0) prints with the wrong sign" % (vtxt, pred.rsplit("::", 1)[-1], vtxt))
     return n
+
+
+def tolerant_in_printer(F, R, rule="EXACT-PRINT", prop_filter=None):
+    """every use of a tolerant float predicate inside a function that renders numbers must be the
+    accepted sign split (then: `- abs`, else: the raw value); anything else decides what is printed
+    (a sign, or whether a coefficient is shown at all) with a tolerance while the digits are exact"""
+    n = 0
+    for f in F.fn_list:
+        if "body" not in f or not f.get("file", "").startswith("src/transformers/"):
+            continue
+        if prop_filter and not prop_filter(f):
+            continue
+        renders = any(x.get("k") == "Macro" and x.get("name") in ("format", "write", "writeln") for x in walk(f["body"])) or any(x.get("k") == "MCall" and x["name"] == "to_string" for x in walk(f["body"]))
+        if not renders:
+            continue
+        f64_rendered = bool(f64_render_sites(F, f)) or any(x.get("k") == "MCall" and x["name"] == "abs" for x in walk(f["body"]))
+        if not f64_rendered:
+            continue
+        for c in walk(f["body"]):
+            if c.get("k") == "Call" and norm(c.get("callee") or "") in TOLERANT:
+                n += 1
+                R.fn(f["path"])
+                arg = sexp(strip(c["args"][0]))
+                ok = False
+                why = "tolerant test is not the condition of an if"
+                for i in walk(f["body"]):
+                    if i.get("k") == "If" and any(x is c for x in walk(i["cond"])) and i.get("else") is not None:
+                        t, e = sexp(i["then"]), sexp(i["else"])
+                        base = arg.replace(".abs()", "")
+                        ok = (base + ".abs()") in t and base in e and ".abs()" not in e and strip(i["cond"]) is c and sexp(strip(c["args"][1])) == "0.0" and norm(c["callee"]).endswith("float_lt")
+                        why = "then `%s` else `%s`" % (t[:50], e[:50])
+                R.ob(rule, "%s:%s" % (f["path"], re.sub(r"\s+", "", sexp(c))[:60]), ok, F.loc(f, c),
+                     "a printer decides with the tolerant `%s` while printing exact digits (%s): values within 1e-5 of the threshold are rendered as something else (wrong sign, or a coefficient like 1.000001 shown as 1)" % (sexp(c), why))
+    R.count(rule + ".tolerant-calls", n)
 
 
 # ---- NUM-SPELL ----------------------------------------------------------------------
